@@ -2,26 +2,55 @@
 EXTENDS PyAssist, Json
 
 MCNames == {"va", "vb", "w"}
+MCHOrder == <<"va", "vb", "w">>
+MCAllKinds == {"bind", "bindu", "use", "def", "class", "attr", "ret", "pass", "imp", "kw", "try", "fin"}
+\* focus: unfinished try: blocks above keyword-argument calls (names bound by def only)
+MCTryKinds == {"use", "def", "ret", "pass", "kw", "try", "fin"}
+MCNoPrelude == {<<>>}
+\* focus: a function with a parameter, then a try: block that is still open - at module level and
+\* inside another function; TLC continues with every body, the handler and what follows
+MCTryPreludes ==
+  {<<Line(0, "def", "va", "w"), Line(1, "ret", "", "w"), Line(0, "try", "", "")>>,
+   <<Line(0, "def", "va", "w"), Line(1, "pass", "", ""), Line(0, "def", "vb", ""), Line(1, "try", "", "")>>}
+MCTryFocusKinds == {"use", "pass", "kw", "fin"}
+\* focus: imports (and the bindings they compete with)
+MCImpKinds == {"bind", "use", "def", "class", "pass", "imp"}
 MCChars == [n \in MCNames |-> CASE n = "va" -> <<"v", "a">> [] n = "vb" -> <<"v", "b">> [] n = "w" -> <<"w">>]
 
 \* one JSON line per program: the lines (scenario) and, per line, what the
 \* spec predicts: scope, visible names for both later_locals settings, the
 \* same with the line itself ignored, attribute names after the dot; per
 \* identifier the lines where its binding is defined; the prefix relation.
+NoCut(i) == Opens(lines[i]) \/ lines[i].k = "fin"
+\* line i is the last line of a try: body (the next line is its  finally: pass): the user may still be
+\* typing it before any handler exists
+TryTail(i) == ~NoCut(i) /\ i < Len(lines) /\ lines[i + 1].k = "fin"
+IdentInfoIn(ls, id) ==
+  [line |-> id.line, role |-> id.role, name |-> id.name, det |-> Determined(ls, id),
+   imported |-> Determined(ls, id) /\ Imported(ls, id),
+   defline |-> IF Determined(ls, id) THEN (IF Imported(ls, id) THEN HLine(id.name) ELSE DefLine(ls, id)) ELSE 0,
+   deflines |-> IF Determined(ls, id) THEN (IF Imported(ls, id) THEN {HLine(id.name)} ELSE DefLines(ls, id)) ELSE {}]
 LineInfo(i) ==
-  [scope |-> Encl(lines, i), header |-> Header(lines[i]),
+  \* header: lines on which only the no-exception clause applies (block headers; on  from h import n
+  \* completion proposes the names of h, a different contract)
+  [scope |-> Encl(lines, i), header |-> Opens(lines[i]) \/ lines[i].k \in {"fin", "imp"},
    visT |-> VisibleAt(lines, i, TRUE), visF |-> VisibleAt(lines, i, FALSE),
    mustT |-> MustAt(lines, i, TRUE), mustF |-> MustAt(lines, i, FALSE),
-   cutT |-> IF Header(lines[i]) THEN {} ELSE MustAt(Cut(lines, i), i, TRUE),
-   cutF |-> IF Header(lines[i]) THEN {} ELSE MustAt(Cut(lines, i), i, FALSE),
+   cutT |-> IF NoCut(i) THEN {} ELSE MustAt(Cut(lines, i), i, TRUE),
+   cutF |-> IF NoCut(i) THEN {} ELSE MustAt(Cut(lines, i), i, FALSE),
    attrDet |-> lines[i].k = "attr" /\ AttrClass(lines, i) # NoScope,
-   attrs |-> Attrs(lines, i)]
-IdentInfo(id) ==
-  [line |-> id.line, role |-> id.role, name |-> id.name, det |-> Determined(lines, id),
-   defline |-> IF Determined(lines, id) THEN DefLine(lines, id) ELSE 0,
-   deflines |-> IF Determined(lines, id) THEN DefLines(lines, id) ELSE {}]
+   attrs |-> Attrs(lines, i),
+   \* definitions of the identifiers below, when line i is incomplete and its try: has no handler yet
+   tryTail |-> TryTail(i),
+   \* (keyword arguments: the only identifiers of the fragment that cannot be found by evaluating
+   \* their text as an expression)
+   below |-> IF TryTail(i)
+             THEN {IdentInfoIn(Cut(lines, i), id) :
+                     id \in {x \in Idents(lines) : x.line > i + 1 /\ x.role = "u" /\ lines[x.line].k = "kw"}}
+             ELSE {}]
+IdentInfo(id) == IdentInfoIn(lines, id)
 Behaviour ==
-  [lines |-> lines,
+  [lines |-> lines, hoff |-> hoff, horder |-> HOrder,
    info |-> [i \in 1..Len(lines) |-> LineInfo(i)],
    idents |-> {IdentInfo(id) : id \in Idents(lines)},
    scopes |-> {[s |-> s, kind |-> ScopeKind(lines, s), bound |-> Bound(lines, s),
